@@ -580,7 +580,7 @@ def explore(ctx, cases):
             if what in seen:
                 continue
             seen.add(what)
-            small = shrink(drv, case, idx, what) if not cls else dict(case, ops=case['ops'][:idx + 1])
+            small = shrink(drv, case, idx, what) if (not cls and len(ctx.failures) < 6) else dict(case, ops=case['ops'][:idx + 1])
             ctx.fail({'doc': small['doc'], 'active': small['active'], 'ops': small['ops'],
                       'stream': case.get('stream')}, what, cls)
         ops = case['ops']
@@ -677,7 +677,14 @@ def matcher_check(ctx, n):
         else:
             conc._cache.clear()
             conc._cache[label] = {}
-            conc.invalidate_cache_for_component((s, name))
+            try:
+                conc.invalidate_cache_for_component((s, name))
+            except Exception as e:
+                # (the pinned code: a name that is not a well-formed regular expression)
+                ctx.disagree({'matcher': 'repaired', 'stage': s, 'name': name, 'label': label},
+                             'exception %s' % type(e).__name__, 'no exception',
+                             'C08 invalidate_cache_for_component vs Cache.Model.lit_matches')
+                continue
             expect = label not in conc._cache.keys()
         terms.append('(%s, %s, %s, %s, %s)' % ('true' if pinned else 'false', cZ(s), cstr(name), cstr(label),
                                                 'true' if expect else 'false'))
@@ -764,9 +771,9 @@ def run(ctx):
     ctx.extra['exhaustive_scope'] = 'all histories of length <= %d over %d operations (+ 4 final queries) on one document' % (
         3 if quick else 4, len(EX_ALPHABET))
     cases += ex
-    cases += random_cases(rng, 420 if quick else 4000, 'prefix')
-    cases += random_cases(rng, 200 if quick else 2000, 'meta')
-    cases += random_cases(rng, 25 if quick else 200, 'colon')
+    cases += random_cases(rng, 420 if quick else 2500, 'prefix')
+    cases += random_cases(rng, 200 if quick else 1200, 'meta')
+    cases += random_cases(rng, 25 if quick else 100, 'colon')
     explore(ctx, cases)
     ctx.count('cases', len(cases))
     matcher_check(ctx, 1200 if quick else 6000)
